@@ -108,6 +108,7 @@ fn one<P: Protocol>(run: u64, stream: u64, mode: Mode, steps: u64, focus: &str) 
         "C09" => (12, 3, 25, 12),
         "C10" => (30, 4, 5, 5),
         "C12" => (12, 14, 5, 4),
+        "C02" => (20, 12, 10, 10),
         _ => (15, 6, 7, 6),
     };
     // bootstrap: a random connected dial pattern, sometimes a configured (reconnect) peer
@@ -147,6 +148,11 @@ fn one<P: Protocol>(run: u64, stream: u64, mode: Mode, steps: u64, focus: &str) 
         for _ in 0..125 {
             sim.tick();
         }
+    }
+    if focus == "C02" {
+        // datagrams of earlier connections arrive late, after the peer restarted and completed a new handshake
+        sim.faults.p_delay = 0.3;
+        sim.faults.max_delay = 25;
     }
     let mut silenced: Option<(usize, i64)> = None;
     for _ in 0..steps {
